@@ -179,12 +179,9 @@ def r02c(repo, chk, R="R02.c"):
               f"can_inline returns {norm(rets[0].value) if rets else '?'}, expected node and sym_data.is_read == 1", None, f"{cp.path}:{ci.lineno}")
     for mn in ("generate_code", "compile_pass", "register_assignment", "utils"):
         m = repo.mod(mn)
-        for a in ast.walk(m.tree):
-            if not (isinstance(a, ast.Attribute) and a.attr == "inline_functions" and isinstance(a.ctx, ast.Load)):
-                continue
-            fn = enclosing_def(a)
-            if fn is None:
-                continue
+        occurrences = [(f_, a_) for f_ in m.funcs.values() if isinstance(f_, (ast.FunctionDef, ast.AsyncFunctionDef)) for a_ in ast.walk(f_)
+                       if isinstance(a_, ast.Attribute) and a_.attr == "inline_functions" and isinstance(a_.ctx, ast.Load) and enclosing_def(a_) is f_]
+        for fn, a in occurrences:
             # climb to the largest boolean expression whose leaves are all inlining atoms
             top = a
             while True:
